@@ -184,7 +184,7 @@ class Extractor:
 
     def return_token(self, S):
         body = self.body
-        v = S.read((("L", 0), ()))
+        v = S.read((self.it.L(0), ()))
         doms = []
         for (rk, rb) in self.read_sites:
             R = ("call", (rk, rb, len(body.blocks[rb]["stmts"])), callee_path(body.blocks[rb]["term"]))
@@ -270,11 +270,11 @@ class Extractor:
                 for i, a in enumerate(t["args"]):
                     ty = it.op_type(a)
                     if ty.get("k") == "ref" and ty.get("mut") and self._is_source(ty) and self.follow(cb, t):
-                        toks.append(("call", cb.pretty, ()))
+                        toks.append(("call", cb.pretty, tuple(stable(x) for j, x in enumerate(args) if j != i)))
                         break
                 else:
                     if cb.kind != "closure" and not is_derived(cb) and self.follow(cb, t) and self.all_local_calls:
-                        toks.append(("call", cb.pretty, ()))
+                        toks.append(("call", cb.pretty, tuple(stable(x) for x in args)))
         return toks
 
     def _is_byte_vec(self, ty):
